@@ -479,7 +479,8 @@ MANIFEST = {
                   'round trips for all scalar values by arithmetic; decode_text_string (text_string s) = Ok s for every Unicode '
                   'string (after two fix: commits; refuted on the pinned tree with witnesses), encode_utf8 / encode_utf16_be decode '
                   'back; for each of the five predefined one-byte encodings no cell is a surrogate so decoding never fails, '
-                  'decode(encode(decode bs)) = decode bs for every byte string, and the tables agree with ISO 32000-1 Annex D '
+                  'decode(encode(decode bs)) = decode bs for every byte string, decode(encode s) = s minus exactly the characters outside '
+                  'the repertoire for every string, and the tables agree with ISO 32000-1 Annex D '
                   'on printable ASCII and Latin-1; text shown with Tj/TJ over the repertoire is what extract_text returns, also from '
                   'several text objects that share one font selection (C16_extract_shown_blocks). '
                   'Tied to the implementation by differential runs through the public API, incl. save_to + load_mem.',
